@@ -193,7 +193,20 @@ def run_case(cs):
         shutil.rmtree(work, ignore_errors=True)
         return
     depth = where.count("/")
-    r = drive.run("verify", [work, "-dh"])
+    dh_args = ["-dh"]
+    if rng.random() < 0.3:
+        # an explicit format that is recorded in the root hashes of the root history (any generation)
+        from ..oracle import xmlread as _xr
+
+        rec_fmts = []
+        for n in world.manifests(work):
+            rh = _xr.read_manifest(os.path.join(work, "ascmhl", n))["processinfo"]["roothash"]
+            if rh:
+                rec_fmts.append({c[0] for c in rh["content"]})
+        if rec_fmts:
+            dh_args += ["-h", rng.choice(sorted(set.union(*rec_fmts)))]
+            cs.count("dh_with_explicit_recorded_format")
+    r = drive.run("verify", [work] + dh_args)
     shutil.rmtree(work, ignore_errors=True)
     cs.evaluated()
     cs.count("mutated_judged")
